@@ -384,9 +384,11 @@ def _ensure_object_loader(context: Optional['LoadSaveContext'], saved_state: SAV
     """
     Given a LoadSaveContext this method will ensure that it has a valid class loader
     using the following priorities:
-    1) The one that is already in the context
+    1) The one that is already in the context, given by whoever loads
     2) One that is found in the saved state
     3) The default global class loader from loaders.get_object_loader()
+    A loader that was determined from the saved state of an enclosing object (2, 3) is not binding for the states nested in
+    it: these were saved on their own and are resolved through the loader recorded in them, if any, or the default one.
     :param context:
     :param saved_state:
     :return:
@@ -396,7 +398,7 @@ def _ensure_object_loader(context: Optional['LoadSaveContext'], saved_state: SAV
 
     assert isinstance(context, LoadSaveContext)
 
-    if context.loader is not None:
+    if context.loader is not None and _LOADER_FROM_STATE not in context:
         return context
 
     # 2) Try getting from saved_state
@@ -410,7 +412,10 @@ def _ensure_object_loader(context: Optional['LoadSaveContext'], saved_state: SAV
         # What was recorded is the class of the loader
         loader = default_loader.load_object(loader_identifier)()
 
-    return context.copyextend(loader=loader)
+    return context.copyextend(loader=loader, **{_LOADER_FROM_STATE: True})
+
+
+_LOADER_FROM_STATE = '_loader_from_saved_state'
 
 
 class LoadSaveContext:
